@@ -96,6 +96,17 @@ var embeddings = []embedding{
 	{"contains(fromJSON('[]'), %s) && true", true},
 }
 
+// every expression with exactly one hole built from the leaves with at most three of `!`, `( )`, `&&`, `||` (the
+// narrowing code of the checker treats each shape of && / || / ! nesting differently; the chain must be visited wherever
+// it sits)
+func init() {
+	for _, sk := range logicalSkeletons(3, []string{"%s", "'a'"}) {
+		if strings.Count(sk, "%s") == 1 && sk != "%s" {
+			embeddings = append(embeddings, embedding{sk, false})
+		}
+	}
+}
+
 func expectedReports(chains []upath, safe []bool) [][]string {
 	var out [][]string
 	for i, c := range chains {
